@@ -524,7 +524,12 @@ func (proj *Project) loadPackage(wg *sync.WaitGroup, path string) error {
 		switch {
 		case e.IsDir():
 			if e.Name() != ".dawn" {
-				pkg, _ := label.Join(path, e.Name())
+				pkg, err := label.Join(path, e.Name())
+				if err != nil {
+					// No label can name a directory like this one (its name contains a ':'), so it cannot
+					// hold packages.
+					continue
+				}
 				if err := proj.loadPackage(wg, pkg); err != nil {
 					return err
 				}
